@@ -102,6 +102,13 @@ pub enum Outcome {
 }
 
 impl Outcome {
+    /// a panic of generated code or of the chain (a scripted panic of a handler is user code's)
+    pub fn foreign_panic(&self) -> Option<&str> {
+        match self {
+            Outcome::Panic(p) if !p.contains(rt::script::SCRIPTED_PANIC) => Some(p.as_str()),
+            _ => None,
+        }
+    }
     pub fn is_ok(&self) -> bool {
         matches!(
             self,
@@ -140,6 +147,9 @@ pub struct World<'r> {
     pub codes: Vec<Code>,
     pub contracts: Vec<ContractInfo>,
     pub accounts: Vec<String>,
+    /// move the clock with the underlying test chain's own `update_block` instead of the
+    /// multitest harness' wrappers (the raw world of the proxy twin)
+    pub raw_block: bool,
 }
 
 fn classify_for(reg: &Reg, cid: Option<&str>) -> fn(&anyhow::Error) -> ErrClass {
@@ -199,6 +209,7 @@ impl<'r> World<'r> {
             codes: vec![],
             contracts: vec![],
             accounts: accts.iter().map(|(a, _)| a.to_string()).collect(),
+            raw_block: false,
         }
     }
 
@@ -529,6 +540,10 @@ impl<'r> World<'r> {
                     b.height += dh;
                     b.time = b.time.plus_seconds(*dt);
                 };
+                if self.raw_block {
+                    on_app!(&self.chain, app => app.update_block(f));
+                    return Outcome::None;
+                }
                 match &self.chain {
                     Chain::E(a) => {
                         if dh % 2 == 0 {
@@ -571,6 +586,8 @@ impl<'r> World<'r> {
     /// digest of every known contract's raw storage, contract info, and all known balances
     pub fn state(&self) -> BTreeMap<String, Value> {
         let mut out = BTreeMap::new();
+        let (bh, bt) = self.block();
+        out.insert("block".to_string(), json!({"height": bh, "time": bt}));
         for c in &self.contracts {
             let a = Addr::unchecked(c.addr.clone());
             let (h, journal, n, info) = on_app_ref!(&self.chain, app => {
@@ -656,6 +673,8 @@ pub struct RunRecord {
     pub contracts: Vec<ContractInfo>,
     pub contracts1: Vec<ContractInfo>,
     pub code_ids: Vec<u64>,
+    /// twin runs: the code ids world 0 got (world 1's are `code_ids`)
+    pub code_ids0: Vec<u64>,
     pub accounts: Vec<String>,
     pub ops: Vec<OpRecord>,
     pub fired: BTreeMap<&'static str, u64>,
@@ -719,6 +738,7 @@ pub fn execute(plan: &Plan, reg: &Reg) -> RunRecord {
         contracts: w.contracts.clone(),
         contracts1: vec![],
         code_ids: w.code_ids.clone(),
+        code_ids0: vec![],
         accounts: w.accounts.clone(),
         ops: recs,
         fired: bb::with(|s| s.fired.clone()),
